@@ -20,7 +20,7 @@
 //   U<n> the vector expression number n of VSHAPES   Y<n> the rich scalar expression number n of XSHAPES
 // rank 1: V X W and every U;  rank 2: every mixture of the eight plain letters, the first NVMENU2 U's with a partner
 // out of I E R A V (either order), a Y with the partner V (either order);  rank 3: every mixture of I E R A V (a plain
-// range is passed as R through end-(len-1-k));  rank 4: the fixed menu IX_MENU4 (letters I E R A V).
+// range is passed as R through end-(len-1-k)) and one of the first NVMENU2 U's between two scalars I / E;  rank 4: the fixed menu IX_MENU4 (letters I E R A V).
 #ifndef VERIF_DRV_VIEWS_IDX_H
 #define VERIF_DRV_VIEWS_IDX_H
 #include "drv_views.h"
@@ -144,11 +144,21 @@ constexpr bool ix_pair_ok(int F, int L) {
       || (ix_is_y(F) && L == L_V) || (ix_is_y(L) && F == L_V);
 }
 constexpr bool ix_is_vec(int L) { return L >= L_V && L < L_Y0; }
+// rank 3: every mixture of I E R A V, and one vector expression U<n> (n < NVMENU2) between two scalars I / E
+constexpr bool ix_base5(int L) { return L == L_I || L == L_E || L == L_R || L == L_A || L == L_V; }
+constexpr bool ix_scal(int L) { return L == L_I || L == L_E; }
+constexpr int ix_digit(int code, int k) { return (code / ix_pow8(k)) % 32; }
+constexpr bool ix_rank3_ok(int K, int code, int L) {
+  return K == 0 ? (ix_base5(L) || ix_is_u2(L))
+       : K == 1 ? (ix_is_u2(ix_digit(code, 0)) ? ix_scal(L) : (ix_base5(L) || (ix_is_u2(L) && ix_scal(ix_digit(code, 0)))))
+       : ((ix_is_u2(ix_digit(code, 0)) || ix_is_u2(ix_digit(code, 1))) ? ix_scal(L)
+          : (ix_base5(L) || (ix_is_u2(L) && ix_scal(ix_digit(code, 0)) && ix_scal(ix_digit(code, 1)))));
+}
 constexpr bool ix_letter_ok(int Mask, int R, int K, int code, int L) {
   return (K == 0 && !((Mask >> L) & 1)) ? false
        : R == 1 ? ix_is_vec(L)
        : R == 2 ? (K == 0 ? true : ix_pair_ok(code, L))
-       : R == 3 ? (L == L_I || L == L_E || L == L_R || L == L_A || L == L_V)
+       : R == 3 ? ix_rank3_ok(K, code, L)
        : (L < L_U0 && ix_prefix_in_menu4(code + L * ix_pow8(K), K + 1));
 }
 
@@ -296,6 +306,11 @@ template <int R> inline std::vector<ISel> ix_parse(const std::vector<std::string
 }
 // (Mask is a template parameter here too: translation units with different IX_FIRST_MASK must not share one ix_go<R>)
 template <int R, int Mask = IX_FIRST_MASK> inline std::string ix_go(Array<R,int>& a, const std::vector<ISel>& t) { return IxDisp<Mask, R, 0, 0, false>::go(a, t); }
-// rank 3 is split over two translation units by the first letter
+// rank 3 is split over three translation units by the first letter, rank 2 over four
 std::string ix_op3_vec_first(Array<3,int>& a, const std::vector<ISel>& t);
+std::string ix_op3_range_first(Array<3,int>& a, const std::vector<ISel>& t);
+std::string ix_op2_a(Array<2,int>& a, const std::vector<ISel>& t);
+std::string ix_op2_b(Array<2,int>& a, const std::vector<ISel>& t);
+std::string ix_op2_c(Array<2,int>& a, const std::vector<ISel>& t);
+std::string ix_op2_d(Array<2,int>& a, const std::vector<ISel>& t);
 #endif
